@@ -12,7 +12,7 @@ ASSUMPTIONS = ["oracle: dense Python rows and numpy applied per row / per column
 REQUIRED_FEATURES = ["variant_2d", "variant_ragged", "variant_ragged_from_matrix", "run_straddles_row_boundary", "single_run_row", "left_operand",
                      "column_operand", "neg_step_colslice", "from_intervals", "row_mask", "unequal_rows", "narrow_or_float_values", "binary_matrix", "row_mask_list_of_bools", "matrix_not_c_contiguous"]
 BOUNDS = {"quick": "rows<=2 x len<=3 (+ (5,), (4,5), (5,3)) x 5 run patterns x {RunLength2dArray.from_array, RunLengthRaggedArray.from_ragged_array, "
-                   ".from_array} x all listed operations; from_intervals: L<=4, <=2 intervals, 3 value kinds",
+                   ".from_array} x all listed operations; from_intervals: L<=4, <=2 intervals, 3 value kinds; list-of-bools / index-array / numpy-scalar row selectors, 1-tuple and Ellipsis spellings; column-major and strided matrices; int8 / uint8 / float / {1e16, inf} value tables; every binary 2x4, 3x3, 2x5 matrix",
           "thorough": "rows<=3 x len<=3 and rows<=2 x len<=5; from_intervals L<=5, <=3 intervals"}
 PATS = [(0,), (0, 1), (1, 1, 0), (2, 0, 0, 1), (1, 2, 2, 2, 0)]
 GROUPS = ["basic", "rowsel", "elem", "red", "col", "ufunc", "colint", "colslice"]
